@@ -173,19 +173,11 @@ Definition ststep (h : sth) (o : stop) : sth + list Z :=
       else errmis e err
   | SReopen crash listing err =>
       let '(p, (hv, ht, hm), (limit, cthr)) := sh_cfg h in
-      let counter := fold_left Z.max (map fst listing) 0 in
-      let segs := flat_map (fun l =>
-                    let '(id, (fh, fv, ft, fm)) := l in
-                    if fh =? 2 then [] else
-                    match find (fun x => fst x =? id) (sh_known h) with
-                    | Some (_, g) => [{| sg_id := id; sg_info := sg_info g; sg_T := sg_T g;
-                                         sg_files := (fstate_of fh, fstate_of fv, fstate_of ft, fstate_of fm); sg_cached := false |}]
-                    | None => [{| sg_id := id; sg_info := []; sg_T := fresh_triple p hv ht hm;
-                                  sg_files := (FBroken, FBroken, FBroken, FBroken); sg_cached := false |}]
-                    end) listing in
+      let listing' := map (fun l => let '(id, (fh, fv, ft, fm)) := l in
+                                     (id, (fstate_of fh, fstate_of fv, fstate_of ft, fstate_of fm))) listing in
       if negb (err =? 0) then inr (v_violation [sh_i h; -9])     (* reopening must not fail *)
       else
-        inl {| sh_model := open_store p hv ht hm limit cthr (isort (fun g => sg_id g) segs) counter;
+        inl {| sh_model := reopen_store p hv ht hm limit cthr (sh_known h) listing';
                sh_spec := sh_spec h; sh_durable := sh_durable h; sh_added := sh_added h; sh_known := sh_known h;
                sh_cfg := sh_cfg h; sh_session := sh_session h + 1; sh_spec_session := sh_spec_session h;
                sh_crashed := sh_crashed h || negb (crash =? 0); sh_corrupt := sh_corrupt h || (crash =? 2);
